@@ -98,7 +98,7 @@ type state = auction * ledger
 
 let err_u64 bound =
   match uint64_c bound with
-  | Some _ -> Err (Zpos (Coq_xI Coq_xH))
+  | Some _ -> Ok ()
   | None -> Panic
 
 (** val lift : lres -> coq_Z -> (ledger -> state outcome) -> state outcome **)
@@ -117,6 +117,89 @@ let refund_prev a l code k =
   | Some prev -> lift (send l coq_MOD prev a.bid_denom a.buy) code k
   | None -> k l
 
+(** val bid_check :
+    auction -> coq_Z -> coq_Z -> coq_Z -> coq_Z -> ((coq_Z * coq_Z) * coq_Z)
+    outcome **)
+
+let bid_check a denom amt xd xa =
+  match a.var with
+  | V1S ->
+    if negb (Z.geb amt Z0)
+    then Err (Zpos (Coq_xO (Coq_xO (Coq_xI (Coq_xO Coq_xH)))))
+    else if negb (Z.eqb denom a.bid_denom)
+         then Err (Zpos (Coq_xO Coq_xH))
+         else if negb (Z.eqb a.status Z0)
+              then (match change a.factor a.buy with
+                    | Some c ->
+                      if Z.ltb amt (Z.add a.buy c)
+                      then Err (Zpos (Coq_xI Coq_xH))
+                      else Ok ((amt, a.sell), amt)
+                    | None -> Panic)
+              else if Z.leb amt a.buy
+                   then Err (Zpos (Coq_xO (Coq_xO Coq_xH)))
+                   else Ok ((amt, a.sell), amt)
+  | V1D ->
+    if negb (Z.eqb xd a.bid_denom)
+    then Err (Zpos (Coq_xO Coq_xH))
+    else if negb (Z.eqb xa a.buy)
+         then Err (Zpos (Coq_xI (Coq_xI Coq_xH)))
+         else if negb (Z.eqb denom a.lot_denom)
+              then Err (Zpos (Coq_xO (Coq_xO (Coq_xO Coq_xH))))
+              else if negb (Z.eqb a.status Z0)
+                   then (match change a.factor a.sell with
+                         | Some c ->
+                           if Z.gtb amt (Z.sub a.sell c)
+                           then obind (err_u64 (Z.sub a.sell c)) (fun _ ->
+                                  Err (Zpos (Coq_xI Coq_xH)))
+                           else Ok ((xa, amt), a.buy)
+                         | None -> Panic)
+                   else if Z.gtb amt a.sell
+                        then Err (Zpos (Coq_xO (Coq_xO Coq_xH)))
+                        else Ok ((xa, amt), a.buy)
+  | _ ->
+    if Z.leb amt Z0
+    then Err (Zpos (Coq_xO (Coq_xO (Coq_xI (Coq_xO Coq_xH)))))
+    else let rev = reverse a.var in
+         let last = if rev then a.sell else a.buy in
+         let last_denom = if rev then a.lot_denom else a.bid_denom in
+         let ok =
+           if rev then Ok ((a.buy, amt), a.buy) else Ok ((amt, a.sell), amt)
+         in
+         if negb (Z.eqb denom last_denom)
+         then Err (Zpos (Coq_xO Coq_xH))
+         else (match a.bidder with
+               | Some _ ->
+                 (match change a.factor last with
+                  | Some c ->
+                    if rev
+                    then if Z.gtb amt (Z.sub last c)
+                         then obind (err_u64 (Z.sub last c)) (fun _ -> Err
+                                (Zpos (Coq_xI Coq_xH)))
+                         else ok
+                    else if Z.ltb amt (Z.add last c)
+                         then obind (err_u64 (Z.add last c)) (fun _ -> Err
+                                (Zpos (Coq_xI Coq_xH)))
+                         else ok
+                  | None -> Panic)
+               | None ->
+                 if rev
+                 then if Z.gtb amt last
+                      then Err (Zpos (Coq_xO (Coq_xO Coq_xH)))
+                      else ok
+                 else if Z.ltb amt last
+                      then Err (Zpos (Coq_xO (Coq_xO Coq_xH)))
+                      else ok)
+
+(** val settle :
+    auction -> ledger -> coq_Z -> coq_Z -> coq_Z -> coq_Z -> coq_Z -> coq_Z
+    -> state outcome **)
+
+let settle a l who amt now pay sell' buy' =
+  lift (send l who coq_MOD a.bid_denom pay) (Zpos (Coq_xI (Coq_xO Coq_xH)))
+    (fun l1 ->
+    refund_prev a l1 (Zpos (Coq_xO (Coq_xI Coq_xH))) (fun l2 -> Ok
+      ((set_bid a who amt now sell' buy'), l2)))
+
 (** val bid :
     auction -> ledger -> coq_Z -> coq_Z -> coq_Z -> coq_Z -> coq_Z -> coq_Z
     -> state outcome **)
@@ -124,94 +207,12 @@ let refund_prev a l code k =
 let bid a l who denom amt now xd xa =
   if Z.eqb a.status (Zpos (Coq_xO Coq_xH))
   then Err (Zpos Coq_xH)
-  else (match a.var with
-        | V1S ->
-          if negb (Z.geb amt Z0)
-          then Err (Zpos (Coq_xO (Coq_xO (Coq_xI (Coq_xO Coq_xH)))))
-          else if negb (Z.eqb denom a.bid_denom)
-               then Err (Zpos (Coq_xO Coq_xH))
-               else if negb (Z.eqb a.status Z0)
-                    then (match change a.factor a.buy with
-                          | Some c ->
-                            if Z.ltb amt (Z.add a.buy c)
-                            then let c0 = Zpos (Coq_xI Coq_xH) in Err c0
-                            else lift (send l who coq_MOD a.bid_denom amt)
-                                   (Zpos (Coq_xI (Coq_xO Coq_xH))) (fun l1 ->
-                                   refund_prev a l1 (Zpos (Coq_xO (Coq_xI
-                                     Coq_xH))) (fun l2 -> Ok
-                                     ((set_bid a who amt now a.sell amt), l2)))
-                          | None -> Panic)
-                    else if Z.leb amt a.buy
-                         then let c = Zpos (Coq_xO (Coq_xO Coq_xH)) in Err c
-                         else lift (send l who coq_MOD a.bid_denom amt) (Zpos
-                                (Coq_xI (Coq_xO Coq_xH))) (fun l1 ->
-                                refund_prev a l1 (Zpos (Coq_xO (Coq_xI
-                                  Coq_xH))) (fun l2 -> Ok
-                                  ((set_bid a who amt now a.sell amt), l2)))
-        | V1D ->
-          if negb (Z.eqb xd a.bid_denom)
-          then Err (Zpos (Coq_xO Coq_xH))
-          else if negb (Z.eqb xa a.buy)
-               then Err (Zpos (Coq_xI (Coq_xI Coq_xH)))
-               else if negb (Z.eqb denom a.lot_denom)
-                    then Err (Zpos (Coq_xO (Coq_xO (Coq_xO Coq_xH))))
-                    else (match if negb (Z.eqb a.status Z0)
-                                then (match change a.factor a.sell with
-                                      | Some c ->
-                                        if Z.gtb amt (Z.sub a.sell c)
-                                        then err_u64 (Z.sub a.sell c)
-                                        else Ok ()
-                                      | None -> Panic)
-                                else if Z.gtb amt a.sell
-                                     then Err (Zpos (Coq_xO (Coq_xO Coq_xH)))
-                                     else Ok () with
-                          | Ok _ ->
-                            lift (send l who coq_MOD a.bid_denom xa) (Zpos
-                              (Coq_xI (Coq_xO Coq_xH))) (fun l1 ->
-                              refund_prev a l1 (Zpos (Coq_xO (Coq_xI
-                                Coq_xH))) (fun l2 -> Ok
-                                ((set_bid a who amt now amt a.buy), l2)))
-                          | Err c -> Err c
-                          | Panic -> Panic)
-        | _ ->
-          if Z.leb amt Z0
-          then Err (Zpos (Coq_xO (Coq_xO (Coq_xI (Coq_xO Coq_xH)))))
-          else let rev = reverse a.var in
-               let last = if rev then a.sell else a.buy in
-               let last_denom = if rev then a.lot_denom else a.bid_denom in
-               if negb (Z.eqb denom last_denom)
-               then Err (Zpos (Coq_xO Coq_xH))
-               else (match match a.bidder with
-                           | Some _ ->
-                             (match change a.factor last with
-                              | Some c ->
-                                if rev
-                                then if Z.gtb amt (Z.sub last c)
-                                     then err_u64 (Z.sub last c)
-                                     else Ok ()
-                                else if Z.ltb amt (Z.add last c)
-                                     then err_u64 (Z.add last c)
-                                     else Ok ()
-                              | None -> Panic)
-                           | None ->
-                             if rev
-                             then if Z.gtb amt last
-                                  then Err (Zpos (Coq_xO (Coq_xO Coq_xH)))
-                                  else Ok ()
-                             else if Z.ltb amt last
-                                  then Err (Zpos (Coq_xO (Coq_xO Coq_xH)))
-                                  else Ok () with
-                     | Ok _ ->
-                       let pay = if rev then a.buy else amt in
-                       lift (send l who coq_MOD a.bid_denom pay) (Zpos
-                         (Coq_xI (Coq_xO Coq_xH))) (fun l1 ->
-                         refund_prev a l1 (Zpos (Coq_xO (Coq_xI Coq_xH)))
-                           (fun l2 -> Ok
-                           ((if rev
-                             then set_bid a who amt now amt a.buy
-                             else set_bid a who amt now a.sell amt), l2)))
-                     | Err c -> Err c
-                     | Panic -> Panic))
+  else (match bid_check a denom amt xd xa with
+        | Ok a0 ->
+          let (p, buy') = a0 in
+          let (pay, sell') = p in settle a l who amt now pay sell' buy'
+        | Err c -> Err c
+        | Panic -> Panic)
 
 (** val close : auction -> ledger -> coq_Z -> bool -> state outcome **)
 
